@@ -870,6 +870,7 @@ func run(b *harness.B) {
 			}
 			c.Grow(1+rng.IntN(5), chaingen.Plan{MaxTxns: 3})
 			s.ephemeralMaturity()
+			s.ephemeralMaturityV1()
 			s.versionWindow()
 			switch (r + i) % 5 {
 			case 0:
@@ -879,6 +880,7 @@ func run(b *harness.B) {
 				s.v1Timelocks()
 			case 2:
 				s.v2Locks()
+				s.v2SiafundLocks()
 				if r%2 == 0 {
 					s.v2AfterNonMonotonic()
 				}
@@ -910,6 +912,6 @@ func main() {
 		Run:         run,
 		MinEvals:    1500,
 		MinDistinct: 80,
-		Require:     []string{"maturity_delay_edge_cases", "far_apart_median_cases", "boundaries_observed_on_both_sides", "boundary_points_as_predicted", "after_policy_median_equal_to_lock_time_visited", "in_block_spends_of_immature_outputs_rejected_at_the_fix_height", "dev_address_override_timelock_cases", "genesis_payout_maturity_cases"},
+		Require:     []string{"maturity_delay_edge_cases", "far_apart_median_cases", "boundaries_observed_on_both_sides", "boundary_points_as_predicted", "after_policy_median_equal_to_lock_time_visited", "in_block_spends_of_immature_outputs_rejected_at_the_fix_height", "dev_address_override_timelock_cases", "genesis_payout_maturity_cases", "siafund_inputs_probed_at_a_policy_lock_height", "v1_in_block_spends_of_immature_outputs_rejected"},
 	})
 }
